@@ -89,7 +89,7 @@ check(
 )
 check(
     "C19",
-    "Bounded-exhaustive, solver-driven over schedules: the real XmlContext methods (build, fetch, find_type(s), build_xsi_cache, find_subclass, find_type_by_fields, local_names_match) and XmlVar.match_namespace are lowered at check time from their CURRENT source into generators that yield before every statement touching cache / xsi_cache / sys_modules / namespace_matches; two operations from a pool of 10 run on one shared cold context under a schedule given by symbolic integers (starting thread + step indices of <= 2 preemptions in the quick tier, <= 3 thorough); every schedule in the bound is executed and each operation's result must equal its solo result. A counterexample is replayed with the UNLOWERED methods on real threading.Threads under a sys.settrace-forced schedule before it is reported. Second driver (fullcall): two real threads share one cold XmlContext and one XmlParser/JsonParser/TreeParser/XmlSerializer/JsonSerializer instance; thread A's complete parse/render call is suspended at its k-th line event inside the xsdata package (k a symbolic integer over every line boundary of the call), thread B runs one complete call, A resumes; both results must equal the solo results (quick 6x5 operation pairs, thorough additionally 102x2).",
+    "Bounded-exhaustive, solver-driven over schedules: the real XmlContext methods (build, fetch, find_type(s), build_xsi_cache, find_subclass, find_type_by_fields, local_names_match) and XmlVar.match_namespace are lowered at check time from their CURRENT source into generators that yield before every statement touching cache / xsi_cache / sys_modules / namespace_matches; two operations from a pool of 10 run on one shared cold context under a schedule given by symbolic integers (starting thread + step indices of <= 2 preemptions in the quick tier, <= 3 thorough); every schedule in the bound is executed and each operation's result must equal its solo result. A counterexample is replayed with the UNLOWERED methods on real threading.Threads under a sys.settrace-forced schedule before it is reported. Second driver (fullcall): two real threads share one cold XmlContext and one XmlParser/JsonParser/TreeParser/XmlSerializer/JsonSerializer instance; thread A's complete parse/render call is suspended at its k-th line event inside the xsdata package (k a symbolic integer over every line boundary of the call), thread B runs one complete call, A resumes; both results must equal the solo results (quick 5x4 operation pairs + 3 XInclude file-route pairs, thorough additionally 102x2).",
     "Trusted: the lowering (sched/__init__.py; a lowering artefact does not replay on real threads and is reported as a harness error), the GIL's statement-level atomicity assumption. Outside: preemption inside a bytecode-level operation, more than 2 threads, more preemptions, whole parse/serialize calls with more than one suspension, from_path/XInclude file routes. XmlContext.get_subclasses(object) walks a pool of model classes.",
     "coroutine lowering of the real methods + solver-enumerated preemption schedules; forced-schedule replay on real threads",
     "DESIGN.md §3.3, §5 C19",
